@@ -853,11 +853,24 @@ Definition agree_sent_pointwise (cfg : pcfg) (retriable : bool) (q : request) (c
                                (tl (reorder_for k (c_up cfg))))) keys))
     (seq 0 (length obs)).
 
+(* The client of the proxied cases is httptest's ResponseRecorder.  Its Result() reports as trailers,
+   for every key declared in the snapshotted Trailer header, the values the header map holds under that
+   key at the end, and then adds the values of every TrailerPrefix key.  As long as every trailer was
+   announced, shallowCopyTrailers has ASSIGNED the declared keys: the final trailers.  Once an
+   unannounced trailer arrived, all trailers were set under the prefix and the declared keys still
+   hold what the response HEADER of that name holds ([snap]: the snapshotted header) - the behaviour
+   of net/http's own writer (srv_final_trailers) up to the order of the values; finding F-C04-7. *)
+Definition rec_trailers (snap : hdr) (b : bresp) : hdr :=
+  if trailers_forced b then
+    fold_left (fun t kv => fold_left (fun t v => hadd t (fst kv) v) (snd kv) t) (final_trailers b)
+              (flat_map (fun k => match hlookup snap k with Some vs => [(k, vs)] | None => [] end)
+                        (nodup_keys (b_announced b)))
+  else final_trailers b.
 Definition agree_client_fail (cfg : pcfg) (q : request) (live : hdr) (pre : hdr) (b : bresp) (oc : client_obs) : list bytes :=
   let m0 := client_view cfg (env_of q) live pre b in
   let keys := keys_of (co_hdr oc) ++ keys_of (v_hdr m0) in
   when_not (co_status oc =? v_status m0) (tag "<status>"%string) ++
-  when_not (hdr_eqb_ne (co_trailers oc) (v_trailers m0)) (tag "<trailers>"%string) ++
+  when_not (hdr_eqb_ne (co_trailers oc) (rec_trailers (co_hdr oc) b)) (tag "<trailers>"%string) ++
   filter (fun k =>
             negb (if beq k K_TRAILER then
                     match hlookup (co_hdr oc) k, hlookup (v_hdr m0) k with
@@ -966,7 +979,10 @@ Definition judge (c : case) : N :=
       (* framing and trailers of the ResponseWriter model only depend on min(body length, BUFIO+1) *)
       let s := relay_response cfg0 e0 [] [] b (status_allows_body method (b_status b)) POOL_BUF
                  {| r_data := repeat 0 (Nat.min (N.to_nat b_len) (S BUFIO)); r_script := []; r_eofd := false |} in
-      let agree := (c_status =? v_status m) && hdr_eqb_ne c_trailers (v_trailers m) &&
+      (* the trailers: what the ResponseWriter model sends (below); the short view v_trailers is the
+         same as long as no unannounced trailer arrived (C04_trailers_shared_name_spec) - with one, the
+         writer also sends the header map's values of the declared keys (F-C04-7) *)
+      let agree := (c_status =? v_status m) && (trailers_forced b || hdr_eqb_ne c_trailers (v_trailers m)) &&
                    forallb (fun kv => beq (fst kv) K_CONNECTION || oval_eqb (hlookup c_hdr (fst kv)) (hlookup (v_hdr m) (fst kv))) (b_hdr b) &&
                    hdr_eqb_ne c_trailers (rw_trailers s) && (negb (rs_chunking s) || c_chunked) &&
                    (negb (has_key (rs_snap s) K_CL) || negb c_chunked) in
